@@ -815,6 +815,28 @@ def tle_cases():
     return out
 
 
+def parquet_cases():
+    """implementation-only: corpus/C04/parquet-negative-chunk-size.parquet (seed.parquet with one footer byte changed: a
+    column chunk's total_compressed_size becomes -44) uploaded to the Parquet import, then an ordinary write"""
+    p = os.path.join(vlib.ROOT, "corpus", "C04", "parquet-negative-chunk-size.parquet")
+    if not os.path.exists(p):
+        return []
+    body, ct = multipart(open(p, "rb").read())
+    good = mp.encode(M(("m", S("cpu")), ("columns", M(("time", A(I(T0, "i64"))), ("v", A(I(1)))))))
+    evs = [{"k": "raw", "path": "/api/v1/import/parquet?measurement=imp&db=mutdb", "db": None, "ctype": ct, "body": body, "enc": "", "kind": "parquet"},
+           {"k": "raw", "path": "/api/v1/write/msgpack", "db": None, "ctype": "application/msgpack", "body": good, "enc": "", "kind": "mp"}, FLUSH]
+    return [{"family": "parquet:negative-chunk-size", "max_rows": BIG, "typed": None, "events": evs}]
+
+
+def mutation_death_signature(case, o):
+    """the listed finding a process death in the implementation-only stream belongs to (None: none)"""
+    k = o.get("died_at", -1)
+    ev = case["events"][k] if 0 <= k < len(case["events"]) else {}
+    if ev.get("kind") == "parquet" and "makeslice" in o.get("panic", "") and "ReaderProperties).GetStream" in o.get("panic", ""):
+        return "parquet-import-chunk-size-from-footer"
+    return None
+
+
 def tle_short_line(text):
     """signature of finding tle-short-line-handler-panic: a line starting with '1 ' shorter than 7 bytes that has a
     successor line (ParseTLEFile slices line1[2:7])"""
@@ -1021,7 +1043,7 @@ def run(res, tier, seed):
     cases = modelled
     seeds = [mp.encode(e["ast"], rng) for c in cases for e in c["events"] if e["k"] == "mp"]
     inj = injection_cases() + interleaving_cases()
-    muts = [c for c, _, _ in inj] + tle_cases() + [alloc_witness()] + raw_corpus + gen_mutation_sequences(rng, nmut, seeds)
+    muts = [c for c, _, _ in inj] + tle_cases() + parquet_cases() + [alloc_witness()] + raw_corpus + gen_mutation_sequences(rng, nmut, seeds)
 
     box = {}
 
@@ -1180,13 +1202,22 @@ def run(res, tier, seed):
     res.cov["histogram"]["tle_requests_answered_500_matching_listed_finding"] = tle_5xx
 
     # ---- implementation-only mutation stream: any death
+    mut_known_deaths = 0
     for c, o in zip(muts, xobs):
         if not o["died"]:
+            continue
+        sig = mutation_death_signature(c, o)
+        if sig and sig in known:
+            mut_known_deaths += 1
+            if sig not in reported:
+                reported.add(sig)
+                res.known_finding("%s: %s" % (sig, known[sig]["what"]))
             continue
         res.violation("mutation stream: the real server process died: " + o["panic"],
                       {"kind": "mutation-death", "case": case_to_json(c), "observed": o,
                        "how_to_replay": "python3 tools/check.py C04 --replay <this file>"}, suffix="mutation")
         break
+    res.cov["histogram"]["mutation_deaths_matching_listed_finding"] = mut_known_deaths
     # memory: a small request must not make the process allocate hundreds of MB
     alloc_hits, alloc_max = 0, 0
     for c, o in zip(muts, xobs):
